@@ -112,7 +112,43 @@ type workResp struct {
 }
 
 // expandState computes all successors of the state reached by path.
-func expandState(sp Space, path []Op, wantInit bool, noTrace bool, only int) workResp {
+// coldOp: the same transition once more with a commit placed BEFORE the operation (every slab clean when it runs),
+// then commit and recover from the registers: what the operation must add to the write set is only visible then.
+// This costs no extra states: the commit is not part of the explored histories.
+func coldOp(sp Space, path []Op, op Op) (viol string, herr string) {
+	defer func() {
+		if r := recover(); r != nil {
+			if at := libraryPanicSite(debug.Stack()); at != "" {
+				viol = fmt.Sprintf("the library panicked: %v (at %s)", r, at)
+				return
+			}
+			panic(r)
+		}
+	}()
+	w, err := sp.Build(path)
+	if err != nil {
+		return "", "rebuild diverged: " + err.Error()
+	}
+	w.TrackCommits = true
+	if err := w.Commit(1, false); err != nil {
+		return "", "" // a state that cannot be committed is the subject of other oracles
+	}
+	err = w.Apply(op)
+	if err == nil && w.FormerOnly == nil {
+		if err = w.Commit(1, false); err == nil {
+			err = OCrash(w)
+		}
+	}
+	if err != nil {
+		if v, ok := err.(*Violation); ok {
+			return v.Msg, ""
+		}
+		return "", err.Error()
+	}
+	return "", ""
+}
+
+func expandState(sp Space, path []Op, wantInit bool, noTrace bool, only int, cold bool) workResp {
 	var resp workResp
 	w0, err := sp.Build(path)
 	if err != nil {
@@ -165,6 +201,13 @@ func expandState(sp Space, path []Op, wantInit bool, noTrace bool, only int) wor
 				s.Viol = v.Msg
 			} else {
 				s.Herr = err.Error()
+			}
+		} else if cold {
+			resp.OpsRun += len(path) + 1
+			if v, h := coldOp(sp, path, op); h != "" {
+				s.Herr = h
+			} else if v != "" {
+				s.Viol = "with a commit placed before the last operation: " + v
 			}
 		}
 		resp.Succs = append(resp.Succs, s)
@@ -226,7 +269,7 @@ func WorkerMain() {
 				cur = MakeSpace(req.Spec)
 				curName = req.Spec.Name
 			}
-			resp := expandState(cur, req.Path, req.Init, req.Spec.Has("notrace"), req.Only)
+			resp := expandState(cur, req.Path, req.Init, req.Spec.Has("notrace"), req.Only, req.Spec.Has("coldop"))
 			if e := enc.Encode(resp); e != nil {
 				os.Exit(3)
 			}
